@@ -119,7 +119,9 @@ def _parse_string(s):
     frac = float("0." + s_frac) * factor
     count = float("0" + s_count) * factor
 
-    assert count + frac == test
+    # The parts are scaled by a power of ten in floating point, so they can
+    # differ from the directly converted value by a few ulp.
+    assert abs(count + frac - test) <= 4 * np.finfo(float).eps * abs(test)
     return count, frac
 
 
